@@ -105,8 +105,8 @@ def main():
     names = [n for n in names if n in matrix]
     missed = [n for n in names if not matrix[n]["caught_by"]]
     print(f"{len(names)} seeds, {len(missed)} not caught: {missed}")
-    alarms = {n: matrix[n]["caught_by"] for n in names if matrix[n]["caught_by"] and n.startswith(("ref-", "ok-"))}
-    if any(n.startswith(("ref-", "ok-")) for n in names):
+    alarms = {n: matrix[n]["caught_by"] for n in names if matrix[n]["caught_by"] and n.startswith(("ref-", "ok-", "ok2-"))}
+    if any(n.startswith(("ref-", "ok-", "ok2-")) for n in names):
         print(f"refactorings raising an alarm (must be empty): {alarms}")
 
 
